@@ -9,7 +9,7 @@
    The while-loop of _print_using is modelled as `tokenize` (what is recognised at a stream position
    depends on the position only) followed by passes over the item list.       NO proofs here. *)
 From Coq Require Import ZArith List Bool.
-From PCB Require Import lib.Result lib.PyInt lib.Harness.
+From PCB Require Import lib.Result lib.PyInt lib.Harness gen.Gen_using.
 Import ListNotations.
 Open Scope Z_scope.
 
@@ -32,9 +32,10 @@ Definition cCARET : Z := 94.   (* ^ *)
 Definition cUSCORE : Z := 95.  (* _ *)
 Definition cSPACE : Z := 32.
 
-Definition err_IFC : Z := 5.
-Definition err_TYPE_MISMATCH : Z := 13.
-Definition max_digit_positions : Z := 24.
+(* regenerated from base/error.py and NumberField.format (gen.Gen_using) *)
+Definition err_IFC : Z := using_IFC.
+Definition err_TYPE_MISMATCH : Z := using_TYPE_MISMATCH.
+Definition max_digit_positions : Z := using_max_digits.
 
 (* ---------------------------------------------------------------- Python bytes primitives *)
 Definition ljust (s : list Z) (n : nat) (fill : Z) : list Z := s ++ repeat fill (n - length s).
@@ -166,7 +167,7 @@ Definition parse_number_field (s : list Z) : option (nfield * list Z) :=
 Record nval := mkNV { nv_neg : bool; nv_zero : bool; nv_dbl : bool; nv_tab : list (Z * Z) }.
 Inductive uval := UStr (s : list Z) | UNum (v : nval).
 
-Definition nv_digits (v : nval) : Z := if nv_dbl v then 16 else 7.
+Definition nv_digits (v : nval) : Z := if nv_dbl v then using_digits_double else using_digits_single.
 Definition exp_sign (v : nval) : Z := if nv_dbl v then cD else cE.
 
 (* Float.to_decimal(n): n is clamped to 0 .. self.digits by the code itself; the result is an input *)
@@ -200,7 +201,7 @@ Definition scientific_notation (v : nval) (digitstr : list Z) (exp10 dtd : Z) (f
     if Z.of_nat (length digitstr) >? dtd then firstn n digitstr ++ cDOT :: skipn n digitstr
     else if (Z.of_nat (length digitstr) =? dtd) && force_dot then firstn n digitstr ++ [cDOT]
     else firstn n digitstr in
-  let exponent := exp10 - dtd + 1 in
+  let exponent := using_sci_exponent exp10 dtd in
   mant ++ exp_sign v :: (if exponent <? 0 then cMINUS else cPLUS) :: get_digits (Z.abs exponent) 2.
 
 (* Float._decimal_notation(digitstr, exp10, type_sign='', force_dot, group_thousands) *)
@@ -220,13 +221,10 @@ Definition to_str_scientific (v : nval) (db da : Z) (force_dot : bool) : res (li
     else Ok [cE; cPLUS; cZERO; cZERO]
   else
     let req := db + da in
-    let w := Z.min (nv_digits v) req in
+    let w := using_work_digits (nv_digits v) req in
     do p <- to_decimal v w;
-    let '(m0, e0) := p in
-    let carry := (0 <? w) && (10 ^ w <=? Z.abs m0) in
-    let m := if carry then m0 / 10 else m0 in
-    let e := if carry then e0 + 1 else e0 in
-    let radix := e + w in
+    (* renormalisation after a rounding carry, radix_position = exponent + work_digits (regenerated) *)
+    let '(m, radix) := using_sci_carry w (fst p) (snd p) in
     let digitstr := firstn (Z.to_nat req) (ljust (get_digits m w) (Z.to_nat req) cZERO) in
     Ok (scientific_notation v digitstr (radix - 1) db force_dot).
 
@@ -240,9 +238,9 @@ Definition to_str_fixed (v : nval) (n_dec : Z) (force_dot group : bool) : res (l
     do p <- to_decimal v (nv_digits v);
     let '(m0, e0) := p in
     do q <- (if - e0 >? n_dec then
-               let n_work := nv_digits v - (- e0 - n_dec) in
+               let n_work := using_n_work (nv_digits v) (- e0) n_dec in
                if n_work >? 0 then to_decimal v n_work
-               else Ok (b2z ((n_work =? 0) && (10 ^ nv_digits v <=? 2 * Z.abs m0)), - n_dec)
+               else Ok (using_round_small (nv_digits v) n_work m0 n_dec)
              else Ok p);
     let '(m, e) := q in
     let n_after := - e in
@@ -274,8 +272,8 @@ Definition post_sign (f : nfield) (neg : bool) : list Z :=
 (* digits before the radix handed to the scientific formatter: one position is the sign's unless the
    field has its own sign position or a dollar sign *)
 Definition sci_before (f : nfield) : Z :=
-  if nf_lead_plus f || nf_trail_plus f || nf_trail_minus f || nf_dollar f then nf_before f
-  else Z.max 0 (nf_before f - 1).
+  if nf_lead_plus f || nf_trail_plus f || nf_trail_minus f then nf_before f
+  else using_sci_before (nf_dollar f) (nf_before f).
 
 (* "add leading zero before radix if there's space" *)
 Definition add_leading_zero (valstr : list Z) : list Z :=
@@ -388,6 +386,15 @@ Definition print_using (fmt : list Z) (vals : list uval) (trailing : bool) : lis
   match fmt with
   | [] => ([], Err err_IFC)
   | _ => cycles (S (length vals)) trailing (tokenize fmt) false [] vals
+  end.
+
+(* what reaches the output device: bytes written, then the line end `nl` if PRINT ends the line *)
+Definition enc_stream (nl : list Z) (r : list Z * res bool) : list Z :=
+  match r with
+  | (o, Ok b) => 0 :: 0 :: o ++ (if b then nl else [])
+  | (o, Err e) => 1 :: e :: o
+  | (o, Host x) => [2; x]
+  | (o, OutOfFuel) => [3]
   end.
 
 (* canonical encoding for the correspondence harness: status, code, bytes written *)
